@@ -65,6 +65,12 @@ pub mod verif_noise_identity {
     }
 }
 
+/// Verification hooks for the TLS certificate path used by QUIC (re-exports only).
+#[cfg(all(feature = "verif", feature = "quic"))]
+pub mod verif_tls {
+    pub use super::tls::certificate::{verif_generate_with_identity, verif_parse_peer_id};
+}
+
 /// The public key of a node's identity keypair.
 #[derive(Clone, Debug, PartialEq, Eq)]
 pub enum PublicKey {
